@@ -298,6 +298,10 @@ func (ot *objectTree) AddContentWithValidator(ctx context.Context, content Signa
 	added := []StorageChange{storageChange}
 	err = ot.storage.AddAll(ctx, added, ot.Heads(), ot.tree.root.Id)
 	if err != nil {
+		// the change is in the in-memory tree but not in storage: go back to what is stored
+		if _, rebuildErr := ot.rebuildFromStorage(nil, nil, nil); rebuildErr != nil {
+			log.Error("failed to rebuild after adding to storage", zap.Strings("heads", ot.Heads()), zap.Error(rebuildErr))
+		}
 		return
 	}
 
